@@ -15,14 +15,24 @@ def one(v):
     try:
         dst = os.path.join(tmp, 'repo')
         shutil.copytree(REPO, dst, ignore=shutil.ignore_patterns('.git', 'build', '_build'))
-        for ed in v['edits']:
+        if v.get('patch'):
+            r = subprocess.run(['patch', '-p1', '-s', '-i', os.path.join(VERIF, v['patch'])], cwd=dst, capture_output=True, text=True)
+            if r.returncode != 0:
+                return v, 'STALE', 'patch does not apply: ' + (r.stdout + r.stderr)[:200]
+            for l in open(os.path.join(VERIF, v['patch'])):
+                if l.startswith('+++ b/lltdResponder/') and l.strip().endswith('.c'):
+                    f = l[6:].strip()
+                    r = subprocess.run(['gcc', '-std=gnu11', '-fsyntax-only', '-w', '-DLINUX', '-IlltdResponder', f], cwd=dst, capture_output=True, text=True)
+                    if r.returncode != 0:
+                        return v, 'NOCOMPILE', r.stderr[:300]
+        for ed in v.get('edits', ()):
             p = os.path.join(dst, ed['file'])
             s = open(p).read()
             if s.count(ed['old']) < 1:
                 return v, 'STALE', 'pattern not found in %s' % ed['file']
             s = s.replace(ed['old'], ed['new'], 1)
             open(p, 'w').write(s)
-        for ed in v['edits']:
+        for ed in v.get('edits', ()):
             if ed['file'].endswith('.c'):
                 r = subprocess.run(['gcc', '-std=gnu11', '-fsyntax-only', '-w', '-DLINUX', '-IlltdResponder', ed['file']], cwd=dst, capture_output=True, text=True)
                 if r.returncode != 0:
@@ -45,6 +55,24 @@ def main():
     if '--jobs' in sys.argv:
         jobs = int(sys.argv[sys.argv.index('--jobs') + 1])
     vs = json.load(open(os.path.join(HERE, 'variants.json')))
+    # independently authored changes kept under seeded/ (must fire) and benign/ (must stay silent, for every check listed)
+    for d in sorted(os.listdir(os.path.join(VERIF, 'seeded'))):
+        mp = os.path.join(VERIF, 'seeded', d, 'meta.json')
+        if os.path.exists(mp):
+            m = json.load(open(mp))
+            if m.get('round', 1) >= 2:     # round 1 is already in variants.json as edits
+                vs.append({'id': 'seeded-' + d, 'property': m['property'], 'expect': 'fire', 'rule': None, 'patch': 'seeded/%s/patch.diff' % d})
+    bdir = os.path.join(VERIF, 'benign')
+    if os.path.isdir(bdir):
+        for d in sorted(os.listdir(bdir)):
+            mp = os.path.join(bdir, d, 'meta.json')
+            if not os.path.exists(mp):
+                continue
+            m = json.load(open(mp))
+            for f in sorted(os.listdir(os.path.join(bdir, d))):
+                if f.startswith('patch') and f.endswith('.diff'):
+                    for prop in m.get('checks', [m['property']]):
+                        vs.append({'id': 'benign-%s-%s' % (d, f[:-5]), 'property': prop, 'expect': 'silent', 'rule': None, 'patch': 'benign/%s/%s' % (d, f)})
     if args:
         vs = [v for v in vs if v['property'] in args or v['id'] in args]
     bad = 0
